@@ -838,3 +838,79 @@ def c06(tier, seed, cases):
                  {"do": "final"}]
         out.append({"name": f"C06-{n}", "family": fam, "seed": seed * 71 + n, "frag": 1344, "steps": steps})
     return out
+
+
+def c24own(tier, seed):
+    """C24 end to end: two or three writers of different strength (one per participant) and one EXCLUSIVE reader with a deadline.
+    Families: deadline (the owner falls silent, a weaker writer takes over only after the deadline), takeover (stronger writer
+    appears), unregister (the owner unregisters), delete (the owner's writer is deleted), random mixes.  Writes of the non-owner
+    are placed clearly before or clearly after the instants at which ownership may pass (the specification accepts either
+    outcome inside the detection windows)."""
+    rng = random.Random(7000 + seed)
+    out = []
+
+    def base(strengths, deadline_ms):
+        steps = [{"do": "participant"} for _ in range(len(strengths) + 1)]
+        for k, s in enumerate(strengths):
+            # (the offered deadline must not be longer than the requested one or the pair does not match)
+            steps.append({"do": "create_writer", "part": k, "qos": q(own="EXCLUSIVE", strength=s, deadline_ms=deadline_ms)})
+        steps.append({"do": "create_reader", "part": len(strengths), "qos": q(own="EXCLUSIVE", deadline_ms=deadline_ms)})
+        for k in range(len(strengths)):
+            steps.append({"do": "wait_match", "w": k, "n": 1})
+        return steps
+
+    def end(steps, name, family):
+        steps += [{"do": "sleep", "ms": 300}, {"do": "take", "r": 0}, {"do": "final"}]
+        out.append({"name": name, "family": family, "seed": seed, "frag": 1344, "steps": steps})
+
+    W = lambda w, i=1: {"do": "write", "w": w, "i": i, "len": 8}
+    S = lambda ms: {"do": "sleep", "ms": ms}
+    n = 0
+    for dl in ((400, 700) if tier == "quick" else (300, 400, 700, 1000)):
+        for strong_first in (True, False):
+            # deadline: owner (strong) writes, weak writes are ignored until the owner has been silent for a deadline period
+            st = base([10, 5], dl)
+            a, b = (0, 1)
+            st += [W(a), S(60), W(b), S(60), W(a), S(dl // 3), W(b), S(dl + 200), W(b), S(80), W(b), S(60), W(a), S(60), W(b), S(dl // 3), W(b)]
+            if not strong_first:
+                st = base([5, 10], dl)
+                a, b = (1, 0)
+                st += [W(b), S(60), W(a), S(60), W(b), S(dl + 200), W(b), S(60), W(a), S(50), W(b), S(dl + 250), W(b), W(a), W(b)]
+            end(st, f"C24own-deadline-{n}", "deadline")
+            n += 1
+        # two instances: the deadline of each instance is its own
+        st = base([10, 5], dl)
+        st += [W(0, 1), W(0, 2), S(dl // 2), W(0, 2), W(1, 1), W(1, 2), S(dl // 2 + 150), W(1, 1), W(1, 2), S(dl // 2 + 150), W(1, 2), W(1, 1)]
+        end(st, f"C24own-twoinst-{n}", "deadline")
+        n += 1
+    # unregister: ownership passes at once; a weaker writer's unregister changes nothing
+    for k in range(2 if tier == "quick" else 6):
+        st = base([10, 5, 7][: 2 + k % 2], -1)
+        st += [W(0), S(50), W(1), S(50), {"do": "unregister", "w": 0, "i": 1, "len": 8}, S(100), W(1), S(50), W(1), S(50), W(0), S(50), W(1)]
+        if k % 2:
+            st += [S(50), W(2), S(50), {"do": "unregister", "w": 0, "i": 1, "len": 8}, S(100), W(1), S(50), W(2), S(50), W(1)]
+        end(st, f"C24own-unregister-{n}", "unregister")
+        n += 1
+    # delete: the owner's writer is deleted
+    for k in range(2 if tier == "quick" else 6):
+        st = base([10, 5], -1 if k % 2 else 2000)
+        st += [W(0), S(50), W(1), S(50), W(0), S(50), {"do": "delete_writer", "w": 0}, S(300), W(1), S(50), W(1)]
+        end(st, f"C24own-delete-{n}", "delete")
+        n += 1
+    # random mixes over two instances and three writers; sleeps are multiples of 70 ms, deadline 1 s or none
+    for k in range(10 if tier == "quick" else 120):
+        strengths = rng.sample([3, 5, 8, 10, 12], 3)
+        dl = rng.choice([-1, 1000, 600])
+        st = base(strengths, dl)
+        for _ in range(rng.randint(8, 16)):
+            r = rng.random()
+            if r < 0.7:
+                st.append(W(rng.randrange(3), rng.choice([1, 1, 2])))
+            elif r < 0.8:
+                st.append({"do": "take", "r": 0})
+            else:
+                st.append(S(rng.choice([70, 140, 350, 700, 1200])))
+            st.append(S(rng.choice([10, 30, 70])))
+        end(st, f"C24own-random-{n}", "random")
+        n += 1
+    return out
